@@ -4,7 +4,9 @@ Re-exports the facts from the current tree ($VERIF_REPO, default /repo), runs th
 property's rule module, writes evidence/<ID>.json and prints VIOLATION lines.
 """
 import importlib
+import json
 import os
+import re
 import sys
 import traceback
 
@@ -90,6 +92,89 @@ def with_helpers(pol):
     return policy
 
 
+_SIGS = None
+
+
+def known_sigs():
+    global _SIGS
+    if _SIGS is None:
+        p = os.path.join(os.path.dirname(os.path.abspath(__file__)), 'known_sigs.json')
+        _SIGS = json.load(open(p)) if os.path.exists(p) else {}
+    return _SIGS
+
+
+def undo_renames(raw):
+    """Rename tolerance.  A private function of the reference tree that is missing, while exactly one new private
+    function with the same container (`Foca::`, `member::Members::` ...) and the same signature exists - and no other
+    missing function shares that container and signature - is taken to be that function under a new name: the facts
+    are rewritten to the reference name, so that the rules (which anchor on names) judge the renamed function instead
+    of failing on a missing anchor.  Anything ambiguous is left alone (the anchor is then reported missing)."""
+    from .lib.facts import strip_generics
+    known, sigs = known_fns(), known_sigs()
+    present = {}
+    for b in raw['bodies']:
+        if b['kind'] != 'Closure':
+            present[strip_generics(b['name'])] = b
+    missing = [k for k in known if k not in present and k in sigs and not k.startswith('<')]
+    if not missing:
+        return raw, {}
+    new = [n for n, b in present.items() if n not in known and not b['reachable'] and not n.startswith('<')]
+    cont = lambda n: n.rsplit('::', 1)[0] if '::' in n else ''
+    sig_of = lambda b: [strip_generics(str(t)) for t in b['locals'][:b['argc'] + 1]]
+
+    def fp_of(b):
+        fp = set()
+        for bl in b['blocks']:
+            if bl['cleanup']:
+                continue
+            for st in bl['stmts']:
+                if 'lhs' in st:
+                    for e in st['lhs']['proj']:
+                        if e['k'] == 'field' and e.get('owner'):
+                            fp.add('W:%s.%s' % (strip_generics(e['owner']), e['name']))
+            t = bl['term']
+            if t['k'] == 'call':
+                fp.add(strip_generics(t['res'] or t['decl']))
+        return fp
+
+    def sim(a, b_):
+        a, b_ = set(a), set(b_)
+        return len(a & b_) / float(len(a | b_) or 1)
+    renames = {}
+    groups = {}
+    for k in missing:
+        groups.setdefault((cont(k), tuple(sigs[k]['sig'])), []).append(k)
+    for (c, sg), ks in groups.items():
+        cands = [n for n in new if cont(n) == c and tuple(sig_of(present[n])) == sg]
+        if not cands:
+            continue
+        if len(ks) == 1 and len(cands) == 1:
+            renames[cands[0]] = ks[0]
+            continue
+        # several same-signature functions renamed at once: pair them by what their bodies do, when that is unambiguous
+        taken = set()
+        for k in ks:
+            scored = sorted(((sim(sigs[k]['fp'], fp_of(present[n])), n) for n in cands), reverse=True)
+            best = scored[0]
+            second = scored[1][0] if len(scored) > 1 else 0.0
+            if best[0] >= 0.5 and best[0] - second >= 0.2 and best[1] not in taken:
+                renames[best[1]] = k
+                taken.add(best[1])
+    if not renames:
+        return raw, {}
+    text = json.dumps(raw)
+    done = {}
+    for newn, oldn in renames.items():
+        a, b_ = newn.rsplit('::', 1)[-1], oldn.rsplit('::', 1)[-1]
+        # the new last segment must not name anything else in the crate
+        others = [n for n in present if n != newn and (n.endswith('::' + a) or ('::' + a + '::') in n)]
+        if others or a == b_:
+            continue
+        text = re.sub(r'::%s(?![A-Za-z0-9_])' % re.escape(a), '::' + b_, text)
+        done[newn] = oldn
+    return (json.loads(text), done) if done else (raw, {})
+
+
 class Ctx:
     def __init__(self, report, tier):
         self.report = report
@@ -101,8 +186,12 @@ class Ctx:
     def facts(self, config='base'):
         if config not in self._facts:
             raw = exporter.export(config)
+            raw, renames = undo_renames(raw)
             f = Facts(raw)
             f.known = known_fns()
+            f.renames = renames
+            if renames:
+                self.report.meta.setdefault('renamed_functions', {}).update(renames)
             self._facts[config] = f
             self.report.configs.append({'config': config, 'features': f.features, 'bodies': len(f.bodies),
                                         'adts': len(f.adts), 'source_hash': f.meta.get('source_hash'),
